@@ -2,8 +2,8 @@ import SocVerif.ArbFull
 import SocVerif.Driver.Common
 /-! driver for the arbiter.
     `case n <bus feat: err rty stall lock cti bte> <busselw>` then n × `intr err rty stall lock cti bte ratio selw`
-    `cyc <ack err rty stall datr> <n × (cyc stb we lock adr datw sel cti bte)>`
-      → `<grant> | cyc stb we lock adr datw sel cti bte | n × (ack err rty stall datr)` (absent signals `x`) -/
+    `cyc <owner> <ack err rty stall datr> <n × (cyc stb we lock adr datw sel cti bte)>`
+      → `<busy> <next owner> | cyc stb we lock adr datw sel cti bte | n × (ack err rty stall datr)` (absent signals `x`) -/
 namespace ArbD
 open ArbF Drv
 
@@ -32,7 +32,9 @@ def handle (s : St) (ws : List String) : IO St := do
     let l := nats rest
     return { s with intr := s.intr.push (featOf (l.take 6), l.getD 6 1, l.getD 7 1) }
   | "cyc" :: rest =>
-    let l := nats rest
+    -- step-wise: the first number is the owner observed on the real hardware in this cycle
+    let g := (nats rest).headD 0
+    let l := (nats rest).drop 1
     let resp : Resp := ⟨l.getD 0 0 != 0, l.getD 1 0 != 0, l.getD 2 0 != 0, l.getD 3 0 != 0, l.getD 4 0⟩
     let reqOf : Nat → Req := fun p =>
       let o := 5 + 9 * p
@@ -42,14 +44,14 @@ def handle (s : St) (ws : List String) : IO St := do
     let c : Cfg := ⟨s.n, s.bus, fun i => (s.intr.getD i (featOf [], 1, 1)).1,
                     fun i => (s.intr.getD i (featOf [], 1, 1)).2.1, fun i => (s.intr.getD i (featOf [], 1, 1)).2.2⟩
     let x : In := ⟨reqOf, resp⟩
-    let b := busOut c s.grant x
+    let b := busOut c g x
     let busStr := s!"{b2n b.cyc} {b2n b.stb} {b2n b.we} {opt s.bus.lock (toString (b2n b.lock))} {b.adr} {b.datw} {maskOf s.busSelw b.sel} {opt s.bus.cti (toString b.cti)} {opt s.bus.bte (toString b.bte)}"
     let outs := (List.range s.n).map fun i =>
       let f := c.intr i
-      let r := intrOut c s.grant x i
+      let r := intrOut c g x i
       s!"{b2n r.ack} {opt f.err (toString (b2n r.err))} {opt f.rty (toString (b2n r.rty))} {opt f.stall (toString (b2n r.stall))} {r.datr}"
-    IO.println s!"{s.grant} | {busStr} | {" , ".intercalate outs}"
-    return { s with grant := nextGrant c s.grant x }
+    IO.println s!"{b2n (busy c g x)} {nextGrant c g x} | {busStr} | {" , ".intercalate outs}"
+    return s
   | ["end"] => IO.println "end"; return {}
   | _ => IO.println "bad-op"; return s
 
